@@ -185,11 +185,25 @@ class Device:
 
 
 _DFU = None
+_DFU_O = None
 
 
-def load_dfu():
-    """import bronzebeard.dfu from the working tree with the fake usb package in place"""
-    global _DFU
+def load_dfu(optimize=False):
+    """import bronzebeard.dfu from the working tree with the fake usb package in place.
+    optimize: the module as `python -O` runs it (compiled from the same source with assert statements removed)"""
+    global _DFU, _DFU_O
+    if optimize:
+        if _DFU_O is None:
+            base = load_dfu()
+            path = base.__file__
+            with open(path) as f:
+                code = compile(f.read(), path, 'exec', optimize=1, dont_inherit=True)
+            mod = types.ModuleType('bronzebeard.dfu')
+            mod.__file__ = path
+            mod.__package__ = 'bronzebeard'
+            exec(code, mod.__dict__)
+            _DFU_O = mod
+        return _DFU_O
     if _DFU is not None:
         return _DFU
     from . import core
@@ -219,10 +233,10 @@ class Run:
 _TMP = None
 
 
-def run(firmware, dev, device_id='28e9:0189', via_fifo=False):
+def run(firmware, dev, device_id='28e9:0189', via_fifo=False, optimize=False):
     """run the real cli_main against `dev`; via_fifo: the firmware path is a named pipe fed by a writer thread"""
     global _TMP
-    dfu = load_dfu()
+    dfu = load_dfu(optimize)
     if _TMP is None:
         _TMP = tempfile.mkdtemp(prefix='bbv-dfu-')
     path = os.path.join(_TMP, 'fw-%d.bin' % os.getpid())
